@@ -446,3 +446,46 @@ def confusable_family():
         md["args"] = [_field(None, fs, acc) for fs, acc in args]
         out.append(md)
     return out
+
+
+def evaluator_family():
+    """Evaluator kernels x update access of the arguments, run first in every run.  The evaluator targets
+    (one basis / differential-basis array per target) are either given by gh_evaluator_targets or DEFAULT to
+    the spaces of the arguments the kernel updates: every update access (inc, readinc, write, readwrite) on
+    continuous / discontinuous / any_* spaces, as the only updated argument (scalar field, vector field;
+    evaluator alone and mixed with quadrature shapes), every ordered pair of distinct update accesses on two
+    updated arguments, updated operators ('to' space), and explicit targets overriding the default."""
+    import itertools
+    upd = [("inc", "w0"), ("readinc", "w0"), ("write", "w0"), ("write", "w3"), ("readwrite", "w3"),
+           ("inc", "any_space_1"), ("readinc", "any_w2"), ("readwrite", "any_discontinuous_space_1")]
+    bfs = "w1"                      # read-only argument's space: the one that needs basis functions
+    both = [{"fs": bfs, "basis": True, "diff": True, "diff_first": False}]
+    out = []
+
+    def add(args, funcs, shapes, targets=()):
+        md = blank(f"ke{len(out)}")
+        md["args"], md["funcs"], md["shapes"], md["targets"] = args, funcs, list(shapes), list(targets)
+        out.append(md)
+
+    # 1. one updated argument, default targets
+    for n, (acc, fs) in enumerate(upd):
+        add([_field(None, fs, acc), _field(None, bfs, "read")], both, ["evaluator"])
+        add([_field(None, bfs, "read"), _field(None, fs, acc, vec=3)],
+            [{"fs": bfs, "basis": n % 2 == 0, "diff": n % 2 == 1, "diff_first": False}], ["evaluator", "xyoz"])
+        add([{"k": "scalar", "dt": "real", "acc": "read"}, _field(None, fs, acc), _field(None, bfs, "read")],
+            both, ["face", "evaluator"])
+    # 2. two updated arguments with different update accesses on different spaces, default targets
+    space = {"inc": ("w0", "w2"), "readinc": ("w0", "w2"), "write": ("w3", "wtheta"), "readwrite": ("w3", "wtheta")}
+    for a1, a2 in itertools.permutations(["inc", "readinc", "write", "readwrite"], 2):
+        f1, f2 = space[a1][0], space[a2][1]
+        add([_field(None, f1, a1), _field(None, f2, a2), _field(None, bfs, "read")],
+            both + [{"fs": f1, "basis": True, "diff": False, "diff_first": False}], ["evaluator"])
+    # 3. updated operators (target = 'to' space), alone and next to an updated field
+    for acc in ("write", "readwrite"):
+        add([{"k": "op", "acc": acc, "to": "w2", "from": "w3"}, _field(None, bfs, "read")], both, ["evaluator"])
+        add([_field(None, "w0", "readinc"), {"k": "op", "acc": acc, "to": "w3", "from": "w0"},
+             _field(None, bfs, "read")], both, ["evaluator", "edge"])
+    # 4. explicit gh_evaluator_targets override the default (a read-only space as the only target)
+    for acc, fs in upd:
+        add([_field(None, fs, acc), _field(None, bfs, "read")], both, ["evaluator"], [bfs])
+    return out
